@@ -9,6 +9,7 @@ pub mod c06;
 pub mod c07;
 pub mod c08;
 pub mod c08_nodes;
+pub mod c08_slow;
 pub mod c09;
 pub mod c09_nodes;
 pub mod c10;
